@@ -235,7 +235,7 @@ def run(ctx: Ctx):
         return isinstance(e, ast.Name) and e.id == "end_minutes"
 
     from ..order import eval_points
-    loops = [l for l in own_nodes(wh) if isinstance(l, ast.For) and "self._hours[" in norm(l.iter)]
+    loops = [l for l in own_nodes(wh) if isinstance(l, ast.For) and ("self._hours[" in norm(l.iter) or "self._hours.get(" in norm(l.iter))]
     if len(loops) != 2:
         raise AnchorMissing(f"WorkingHours.onShift: {len(loops)} interval loops, expected 2 (same day, previous day)")
     same, prev = loops
@@ -262,9 +262,14 @@ def run(ctx: Ctx):
         t = inner_w[0].test
         prof = [eval_points(t, [(m, p), (s_, 20), (e_, 10)]) for p in (5, 10, 15, 20, 25)]
         prof2 = [eval_points(t, [(m, p), (s_, 10), (e_, 10)]) for p in (5, 10, 15)]
-        ok = prof == [True, False, False, True, True] and prof2 == [True, True, True]
+        # a shift that crosses midnight covers the EVENING of its own day (m >= start); its morning part belongs to the next
+        # day and is answered by the previous-day loop -- counting it on the same day too makes the first morning of the
+        # week working although no shift began the evening before
+        ok = prof == [False, False, False, True, True] and prof2 == [False, True, True]
         ctx.ob("R02.5", f"{wh.qual}: wrapping interval {norm(t)}", (wh, inner_w[0]), ok,
-               "on shift iff m >= start or m < end" if ok else f"wrapping-interval test is not (m >= start or m < end): {prof} / {prof2}",
+               "same-day part of a wrapping shift: on shift iff m >= start" if ok else
+               f"the same-day test of a wrapping shift is not (m >= start): {prof} / {prof2}; `or m < end` also books the early morning "
+               "of the shift's own day (Monday 00:00-06:00 of a mon-fri night shift)",
                key="R02.5|WorkingHours.onShift|cross")
         t = inner_p[0].test
         prof = interval_profile(t, m, s_, e_)
@@ -272,6 +277,16 @@ def run(ctx: Ctx):
         ctx.ob("R02.5", f"{wh.qual}: plain interval {norm(t)}", (wh, inner_p[0]), ok,
                "on shift iff start <= m < end" if ok else f"plain-interval test is not start <= m < end: {prof}",
                key="R02.5|WorkingHours.onShift|normal")
+    # the previous-day loop is reached on days without hours of their own (Saturday morning after Friday's night shift)
+    gwh = cfg_of(wh)
+    early = [n for n in gwh.nodes if n.kind == "stmt" and isinstance(n.ast, ast.Return) and isinstance(n.ast.value, ast.Constant)
+             and n.ast.value.value is False and n.ast.lineno < prev.lineno
+             and any("_hours" in norm(i.test) and "weekday" in norm(i.test) for (i, b) in __import__("spverif.rules.common", fromlist=["enclosing_ifs"]).enclosing_ifs(n.ast, wh.node))]
+    ctx.ob("R02.5", f"{wh.qual}: the previous-day loop is reached on days without hours of their own", (wh, prev), not early,
+           "no early `return False` for a weekday without hours before yesterday's spill-over is examined" if not early else
+           "a weekday without hours of its own returns False before yesterday's cross-midnight shift is examined: the morning tail of "
+           "Friday's night shift is lost on Saturday",
+           key="R02.5|WorkingHours.onShift|no early return")
     pv = [i for i in prev.body if isinstance(i, ast.If) and rets_true(i)]
     if len(pv) != 1:
         ctx.ob("R02.5", f"{wh.qual}: previous-day spill-over test", (wh, prev), False,
